@@ -71,7 +71,7 @@ def hist_to_events(hist):
             p = h["p"]
             sn = dict(t=p["t"], qos=p["qos"], tit=p["tit"], tid=p["tid"], mid=p["mid"], rc=p["rc"],
                       topic="/".join(p["tl"]) if p["t"] == "REGISTER" else "", data=p["data"], dup=p["dup"])
-            evs.append(dict(e="gw", p=sn))
+            evs.append(dict(e="gw", p=sn, midref=h.get("ref", "")))
         elif h["e"] == "adv":
             evs.append(dict(e="adv", n=h["n"]))
     return evs
@@ -122,7 +122,7 @@ def match_scenarios(vecs, cfg):
             continue  # an empty topic filter cannot be put on the wire
         evs = [dict(e="api", call="c0", api="Connect"), dict(e="gw", p=dict(t="CONNACK", rc=0)),
                dict(e="api", call="c1", api="Subscribe", topic=ftxt, qos=0, h="hv"),
-               dict(e="gw", p=dict(t="SUBACK", mid=1, tid=0, rc=0))]
+               dict(e="gw", p=dict(t="SUBACK", mid=1, tid=0, rc=0), midref="c1")]
         tid = 100
         for v in sorted(vs, key=lambda v: v["n"]):
             ntxt = "/".join(v["n"])
@@ -501,7 +501,7 @@ def race_scenarios():
     api = lambda call, a, **kw: dict(e="api", call=call, api=a, **kw)
     gw = lambda t, **kw: dict(e="gw", p=dict(t=t, **kw))
     conn = [api("c0", "Connect"), gw("CONNACK", rc=0)]
-    reg = [api("c1", "Register", topic="a/b"), gw("REGACK", mid=1, tid=7, rc=0)]
+    reg = [api("c1", "Register", topic="a/b"), dict(gw("REGACK", mid=1, tid=7, rc=0), midref="c1")]
     return [
         # sleepTransaction.resendDisconnect (timer) vs Disconnect() (reply): t.disconnect = nil
         dict(id="race-sleep-resend-vs-reply", cfg=cfg, seed=1, tail=8, events=conn + [
@@ -514,7 +514,7 @@ def race_scenarios():
         # RetryTransaction retry callback vs acknowledgement (PUBLISH QoS 1, SUBSCRIBE, DISCONNECT)
         dict(id="race-publish-resend-vs-puback", cfg=cfg, seed=1, tail=8, events=conn + reg + [
             api("c2", "Publish", topic="a/b", qos=1, pl="s:p1"), dict(e="gate", pat="Resend."), dict(e="adv", n=3),
-            dict(e="gwrace", p=dict(t="PUBACK", mid=2, tid=7), until="none"), dict(e="adv", n=4)]),
+            dict(e="gwrace", p=dict(t="PUBACK", mid=2, tid=7), midref="c2", until="none"), dict(e="adv", n=4)]),
         dict(id="race-disconnect-resend-vs-reply", cfg=cfg, seed=1, tail=8, events=conn + [
             api("c1", "Disconnect"), dict(e="gate", pat="Resend."), dict(e="adv", n=3),
             dict(e="gwrace", p=dict(t="DISCONNECT"), until="none"), dict(e="adv", n=4)]),
